@@ -55,6 +55,7 @@ C22_BREAKS = {
 # proposed repairs (monkeypatched inside the driver child): the named witness key of the unchanged tree must disappear,
 # (the mechanisms are attributed independently: see the printed key sets)
 C22_DIRECTED_FIXES = {  # judged on the in-process directed part (hand-built tests through the real visitors)
+    "PROPOSED_FIX_protect-assertion-carriers": ["asserted-statement-lost:combined-visitor:assertion-carrier-removed"],
     "PROPOSED_FIX_protect-dotted-sources": ["asserted-statement-lost:iterative-forward:dotted-source-unprotected",
                                             "asserted-statement-lost:iterative-backward:dotted-source-unprotected"],
 }
